@@ -55,7 +55,7 @@ class C19(Prop):
     exhaustive = {"quick": True, "thorough": True}
     nshards = {"quick": 2, "thorough": 2}
 
-    def worker_pyflags(self, shard):
+    def worker_pyflags(self, shard, nshards=1):
         # the same complete enumeration once more in an optimised interpreter (python -O): guards written as
         # assertions or under `if __debug__:` vanish there
         return ["-O"] if shard == 1 else []
